@@ -183,6 +183,16 @@ Definition rfa_match_x (tol : Qc) (m : res (list Qc * list Qc)) (ox : list Qc) (
                 c["x"] = [0.0, 1.0, 2.0, 3.0, 4.0] if n_ == 16 else [0.0, 1.0, 3.0, 4.0, 6.0]
                 c["y"] = [0.0, 10.0, 20.0, 30.0, 40.0] if al_ != 0.75 else [5.0, -3.0, 4.0, 4.0, -8.0]
                 cases.append(c)
+        # every oversampling factor 2..64 on two short uniform series (unit spacing; 300 s spacing on a decimal offset): how many
+        # samples come back must not depend on how the quotient spacing / n happens to round
+        if "C04" in self.aspects:
+            for n in range(2, 65):
+                for xs_ in ([0.0, 1.0, 2.0], [10.0, 10.6, 11.2], [1.7e6, 1.7e6 + 300.0]):
+                    s = rng.choice(["linfixed", "expfixed", "linadapt", "expadapt"])
+                    c = self.mk(rng, s, m=len(xs_), n=n, a=None, alpha=rng.choice([1.0, 0.5]))
+                    c["x"] = list(xs_)
+                    c["y"] = [float(rng.randint(-8, 8)) for _ in xs_]
+                    cases.append(c)
         # n < 2 rejections
         for s in STRATS:
             for n in (1, 0, -1, 1.5):
@@ -660,6 +670,10 @@ class RfaMetaUnit(Unit):
             fail("x-affine", "values change under x -> c*x+d by %g" % np.max(np.abs(np.array(o["ys_xaff"]) - ys)))
         if s != "cubic":
             radius = 2 if exact else 1
+            if s in ("linadapt", "expadapt") and window_a(c) > n:
+                # an adaptive side window can be as wide as the whole window a; for n < a <= 2n it reaches into the next interval,
+                # i.e. one interval further than the clause of C07 (stated for a <= n) says.  Fixed windows (a // 2 <= n) do not.
+                radius += 1
             k = c["k"]
             m = len(c["y"])
             diff = np.abs(np.array(o["ys_local"]) - ys) > t * (sc + abs(c["delta"]))
